@@ -32,6 +32,9 @@ type vfC06Case struct {
 	WantCN   string   // canonical name expected as the first record ("" = none)
 	Upstream string   // name the upstream must be asked for ("" = must not be asked)
 	Empty    bool     // empty NOERROR expected
+	// UpReply is what the upstream says when it is asked: "data" (the
+	// fixture), "nodata" (NOERROR without records) or "nxdomain".
+	UpReply string
 }
 
 func vfC06Draw(t *rapid.T) (c *vfC06Case) {
@@ -119,6 +122,10 @@ func vfC06Draw(t *rapid.T) (c *vfC06Case) {
 		c.Qtype = rapid.SampledFrom([]uint16{dns.TypeTXT, dns.TypeMX, dns.TypeHTTPS}).Draw(t, "other_qtype")
 		c.Empty = true
 	}
+	c.UpReply = "data"
+	if c.Upstream != "" {
+		c.UpReply = rapid.SampledFrom([]string{"data", "data", "nodata", "nxdomain"}).Draw(t, "upstream_reply")
+	}
 	if rapid.Bool().Draw(t, "reverse_order") {
 		for i, j := 0, len(c.Table)-1; i < j; i, j = i+1, j-1 {
 			c.Table[i], c.Table[j] = c.Table[j], c.Table[i]
@@ -134,7 +141,7 @@ func (c *vfC06Case) describe() (m map[string]any) {
 		tab = append(tab, r.Domain+" -> "+r.Answer)
 	}
 
-	return map[string]any{"kind": c.Kind, "table": tab, "query": fmt.Sprintf("%s %s", c.Qname, dns.Type(c.Qtype))}
+	return map[string]any{"kind": c.Kind, "table": tab, "query": fmt.Sprintf("%s %s", c.Qname, dns.Type(c.Qtype)), "upstream_reply": c.UpReply}
 }
 
 // vfC06Check runs the case and returns an error describing the first deviation.
@@ -145,6 +152,23 @@ func vfC06Check(c *vfC06Case) (err error) {
 	}
 	defer w.close()
 
+	wantRcode := dns.RcodeSuccess
+	if c.UpReply == "nodata" || c.UpReply == "nxdomain" {
+		if c.UpReply == "nxdomain" {
+			wantRcode = dns.RcodeNameError
+		}
+		w.ups.answer = func(req *dns.Msg) (resp *dns.Msg) {
+			resp = (&dns.Msg{}).SetRcode(req, wantRcode)
+			resp.RecursionAvailable = true
+			resp.Ns = []dns.RR{&dns.SOA{
+				Hdr: dns.RR_Header{Name: "invalid.", Rrtype: dns.TypeSOA, Class: dns.ClassINET, Ttl: vfFixtureTTL},
+				Ns:  "ns.vf-upstream.invalid.", Mbox: "hostmaster.vf-upstream.invalid.", Serial: 1, Refresh: 1, Retry: 1, Expire: 1, Minttl: 60,
+			}}
+
+			return resp
+		}
+	}
+
 	o := w.run(vfQuery{Name: c.Qname + ".", Qtype: c.Qtype, Addr: netip.MustParseAddrPort("198.18.0.3:999")})
 	if o.Err != nil || o.BeforeErr != nil || o.Res == nil {
 		return fmt.Errorf("request failed: before=%v err=%v", o.BeforeErr, o.Err)
@@ -153,8 +177,8 @@ func vfC06Check(c *vfC06Case) (err error) {
 	if len(res.Question) != 1 || res.Question[0] != o.Req.Question[0] {
 		return fmt.Errorf("the question of the response is %v, the client asked %v", res.Question, o.Req.Question)
 	}
-	if res.Rcode != dns.RcodeSuccess {
-		return fmt.Errorf("rcode %s", dns.RcodeToString[res.Rcode])
+	if res.Rcode != wantRcode {
+		return fmt.Errorf("rcode %s, want %s", dns.RcodeToString[res.Rcode], dns.RcodeToString[wantRcode])
 	}
 
 	// upstream contact
@@ -243,6 +267,9 @@ func TestVFC06Response(t *testing.T) {
 		err := vfC06Check(c)
 		vfC06.Eval()
 		vfC06.Class("response:" + c.Kind)
+		if c.Upstream != "" {
+			vfC06.Class("response:upstream_reply=" + c.UpReply)
+		}
 		vfC06.Nontrivial(fmt.Sprintf("response|%v", c.describe()))
 		if vfC06.WantSample("response:" + c.Kind) {
 			vfC06.Sample("response:"+c.Kind, c.describe())
